@@ -5,6 +5,7 @@ import (
 	"fmt"
 	"math/big"
 	"sort"
+	"strings"
 	"unicode"
 
 	"verifharness/lib"
@@ -14,14 +15,19 @@ type mcase struct {
 	term   string
 	in     input
 	random bool
+	failed bool // the direct check failed on this input: always part of the Coq file (cap 20)
 }
 
 type emitter struct {
-	strings, regexps, ints, lexes, types []mcase
+	strings, regexps, ints, lexes, types, parses []mcase
+	pfloats                            map[string]bool
 	letters                            map[rune]bool
+	failed                             bool // set by evaluate for the current input
 }
 
-func newEmitter(cfg *lib.Config) *emitter { return &emitter{letters: map[rune]bool{}} }
+func newEmitter(cfg *lib.Config) *emitter {
+	return &emitter{letters: map[rune]bool{}, pfloats: map[string]bool{}}
+}
 
 func gOptStr(present bool, s string) string { return lib.GOpt(present, lib.GStr(s), "str") }
 
@@ -40,7 +46,7 @@ func (e *emitter) addString(in input, s string, o Obs) {
 	ok, tok := lexedPayload(o, "6")
 	// the text must have been lexed completely: the literal and the end token
 	whole := ok && o.Aux["lexclass"] == "ok" && o.Aux["ntok"] == "2"
-	e.strings = append(e.strings, mcase{fmt.Sprintf("(%s, %s, %s)", lib.GStr(s), lib.GStr(unhex(o.Out)), gOptStr(whole, tok)), in, in.Family == "random"})
+	e.strings = append(e.strings, mcase{fmt.Sprintf("(%s, %s, %s)", lib.GStr(s), lib.GStr(unhex(o.Out)), gOptStr(whole, tok)), in, in.Family == "random", e.failed})
 }
 
 func (e *emitter) addRegexp(in input, src string, o Obs) {
@@ -49,7 +55,7 @@ func (e *emitter) addRegexp(in input, src string, o Obs) {
 	}
 	ok, tok := lexedPayload(o, "5")
 	whole := ok && o.Aux["lexclass"] == "ok" && o.Aux["ntok"] == "2"
-	e.regexps = append(e.regexps, mcase{fmt.Sprintf("(%s, %s, %s)", lib.GStr(src), lib.GStr(unhex(o.Out)), gOptStr(whole, tok)), in, in.Family == "random"})
+	e.regexps = append(e.regexps, mcase{fmt.Sprintf("(%s, %s, %s)", lib.GStr(src), lib.GStr(unhex(o.Out)), gOptStr(whole, tok)), in, in.Family == "random", e.failed})
 }
 
 func gBigZ(dec string) string {
@@ -70,7 +76,7 @@ func (e *emitter) addInt(in input, o Obs) {
 	if o.Aux["parsedkind"] == "Int" {
 		parsed = "(Some " + gBigZ(o.Aux["parsed"]) + ")"
 	}
-	e.ints = append(e.ints, mcase{fmt.Sprintf("(%s, %s, %s, %s)", gBigZ(in.Int), lib.GStr(unhex(o.Out)), gOptStr(whole, tok), parsed), in, in.Family == "random"})
+	e.ints = append(e.ints, mcase{fmt.Sprintf("(%s, %s, %s, %s)", gBigZ(in.Int), lib.GStr(unhex(o.Out)), gOptStr(whole, tok), parsed), in, in.Family == "random", e.failed})
 }
 
 // a printed float is a lexer case: one float token with the printed text
@@ -105,7 +111,25 @@ func (e *emitter) addLex(in input, text string, o Obs) {
 	if v, ok := o.Aux["intval"]; ok && v != "error" {
 		iv = "(Some " + gBigZ(v) + ")"
 	}
-	e.lexes = append(e.lexes, mcase{fmt.Sprintf("(%s, %s%%N, %s, %s)", lib.GStr(text), kind, lib.GStr(tok), iv), in, in.Family == "random"})
+	e.lexes = append(e.lexes, mcase{fmt.Sprintf("(%s, %s%%N, %s, %s)", lib.GStr(text), kind, lib.GStr(tok), iv), in, in.Family == "random", e.failed})
+}
+
+// addParse: (tokens, Some value | None) for coq/Model/TokenParse.v
+func (e *emitter) addParse(in input, o Obs) {
+	ts, ok := o.Aux["ptoks"]
+	if !ok || o.Aux["pdump"] == "-" {
+		return
+	}
+	for _, f := range strings.Split(o.Aux["pfloats"], "\x00") {
+		if f != "" {
+			e.pfloats[f] = true
+		}
+	}
+	obs := "(@None pval)"
+	if d := o.Aux["pdump"]; d != "" {
+		obs = "(Some " + d + ")"
+	}
+	e.parses = append(e.parses, mcase{fmt.Sprintf("(%s, %s)", ts, obs), in, in.Family == "random", e.failed})
 }
 
 func (e *emitter) addType(in input, o Obs) {
@@ -116,12 +140,20 @@ func (e *emitter) addType(in input, o Obs) {
 func pick(cs []mcase, budget int) []mcase {
 	var out []mcase
 	for _, c := range cs {
+		if c.failed && len(out) < 20 {
+			out = append(out, c)
+		}
+	}
+	for _, c := range cs {
+		if c.failed {
+			continue
+		}
 		if !c.random && len(out) < budget {
 			out = append(out, c)
 		}
 	}
 	for _, c := range cs {
-		if c.random && len(out) < budget {
+		if c.random && !c.failed && len(out) < budget {
 			out = append(out, c)
 		}
 	}
@@ -170,6 +202,16 @@ func (e *emitter) flush(cfg *lib.Config, res *lib.Result) {
 		sort.Strings(ls)
 		write("lex", "str * N * str * option Z", "lexer_literals", "lex_mismatches letters cases", e.lexes,
 			"Definition letters : list N := "+lib.GList(ls, "N")+".\n")
+	}
+	if len(e.parses) > 0 || cfg.Replay == "" {
+		var fs []string
+		for f := range e.pfloats {
+			fs = append(fs, f)
+		}
+		sort.Strings(fs)
+		imports = []string{"Model.Base", "Model.QuoteLex", "Model.TokenParse", "Corr.CorrC05"}
+		write("parse", "list tok * option pval", "parser_tokens", "parse_mismatches pfloats cases", e.parses,
+			"Definition pfloats : list (str * str) := "+lib.GList(fs, "str * str")+".\n")
 	}
 	flushTypes(e, cfg, res, budget)
 }
